@@ -298,3 +298,49 @@ def classify_exception(e, parser=None):
     return {'etype': type(e).__name__, 'func': inner.name,
             'file': os.path.relpath(inner.filename, core.REPO),
             'line': (inner.line or '').strip()[:100], 'msgclass': msgclass}
+
+
+# --------------------------------------------------------------------------------------
+# M8 logical step counter (sys.monitoring, PY_START events inside the tree under test)
+# --------------------------------------------------------------------------------------
+
+class StepBudgetExceeded(BaseException):
+    pass
+
+
+class StepCounter:
+    """Counts Python function entries inside the tree under test; raises StepBudgetExceeded in
+    the monitored thread when a budget is passed (logical, not wall-clock, notion of 'terminates')."""
+    TOOL = 3
+
+    def __init__(self):
+        self.count = 0
+        self.budget = None
+        self.on = False
+        mon = sys.monitoring
+        try:
+            mon.use_tool_id(self.TOOL, 'vf-steps')
+        except ValueError:
+            pass
+        mon.register_callback(self.TOOL, mon.events.PY_START, self._start)
+        self._prefix = core.REPO + os.sep
+
+    def _start(self, code, offset):
+        if not code.co_filename.startswith(self._prefix):
+            return sys.monitoring.DISABLE
+        if self.on:
+            self.count += 1
+            if self.budget is not None and self.count > self.budget:
+                self.on = False
+                raise StepBudgetExceeded(self.count)
+
+    def start(self, budget=None):
+        self.count = 0
+        self.budget = budget
+        self.on = True
+        sys.monitoring.set_events(self.TOOL, sys.monitoring.events.PY_START)
+
+    def stop(self):
+        self.on = False
+        sys.monitoring.set_events(self.TOOL, 0)
+        return self.count
